@@ -3,10 +3,10 @@
      (seg_getattr on the Segment the library builds), and neither spelling is an attribute name;
    - likewise every component row of every complex datatype under a field of that datatype, and every
      subcomponent row under every component parent (DATATYPES entry);
-   - child keys are the entries' own names and pairwise distinct; field parents are <SEG>_<i> in upper
-     case with a leaf reference or the components of a complex datatype; no child name, long name or
-     DATATYPES key has the shape of a positional path of a field (hygiene premise of C14_positional);
-   - ANYHL7SEGMENT (a structure wildcard, not a segment) is the only segment entry allowed to fail.
+   - child keys are the entries' own names, upper case and pairwise distinct; field parents are
+     <SEG>_<i> in upper case with a leaf reference or the components of a complex datatype; no
+     DATATYPES key or long name has the shape of a positional path of a field (premise of C14_positional);
+   - ANYHL7SEGMENT (a structure wildcard, not a segment) is skipped.
    Letter case and positional paths are covered for all inputs by C14_case / C14_positional.
    The tallies are PINNED: rows, long names checked, exempt (shared long name / long name equal to a
    child name / long name equal to an attribute name of the class), rows without long name -- at the
@@ -26,7 +26,7 @@ Theorem C14_tables_v2_3 :
    [1468; 1466; 0; 0; 2; 0],     (* field rows of segments *)
    [349; 345; 2; 0; 2; 0],     (* component rows of complex datatypes *)
    [228; 228; 0; 0; 0; 0],     (* subcomponent rows of component parents *)
-   [111; 76; 350; 1468],     (* segments, complex datatypes, component parents, field parents *)
+   [110; 76; 350; 1468],     (* segments, complex datatypes, component parents, field parents *)
    508754336).
 Proof. vm_cast_no_check (eq_refl (summary rep_v2_3)). Qed.
 
